@@ -147,6 +147,14 @@ def plan(tier, seed):
                     # default depth limit only: without it the search over a 30-token expression is astronomically large
                     for o in (EXTREME_OPTS[0], (False, 10, 1.0, "dummy", False)):
                         yield ("call1" if tier == "quick" else "call", j.join(chunk), edge[3], o, seed)
+        # amounts beyond every numeric type the productions convert to (float overflow at 1e308, timedelta range): next to a date, a date range, both orders
+        huge = ["1" + "0" * 309, "9" * 400, "1" + "0" * 20]
+        for start in ("tomorrow", "8.5.2018", "15-18 Nov", "5.3.2021 - 9.3.2021", "friday 10:00"):
+            for h in huge:
+                for unit in ("days", "nights", "hours", "months", "wochen", "minuten"):
+                    for text in ("{} for {} {}".format(start, h, unit), "{} {} {}".format(h, unit, start), "{} {} {}".format(start, h, unit)):
+                        for o in (EXTREME_OPTS[0], EXTREME_OPTS[2]):
+                            yield ("call", text, edge[3], o, seed)
         for b in cps:
             yield ("cpblock", b, edge[3])
         for i in range(0, len(absent), 50):
